@@ -839,10 +839,48 @@ def mps_table_of(body, operand):
     return fs[-1] if fs else None
 
 
+def str_literal(F, text):
+    """the text of a string literal, written in place or given a name (`const MARKER: &str = "'MARKER'";`); None for anything else"""
+    v = text.strip(); v = v[6:] if v.startswith('const ') else v
+    if v.startswith('"'): return T._unq(v)
+    c = F.consts.get(v)
+    if c and isinstance(c[1], str) and c[1].strip().startswith('"'): return T._unq(c[1])
+    return None
+
+
+def named_str_tests(body):
+    """`x == NAME` tests where NAME is a string constant of the crate: (literal, call, true target, false target), like T.str_eq_tests"""
+    F = body.F if hasattr(body, 'F') else None
+    out = []
+    for c in body.calls:
+        if not ('PartialEq' in (c.trait or '') and c.item in ('eq', 'ne') and re.search(r'\bstr\b|String', c.name)): continue
+        lits = []
+        for a in c.args:
+            e = T.strip_wrappers(T.expr(body, a, depth=6)) if a['k'] in ('copy', 'move') else ('const', a['v'])
+            if e[0] != 'const' or e[1].startswith('"'): continue
+            names = [e[1]]
+            m = re.search(r'promoted\[(\d+)\]', e[1])
+            if m and _FACTS[0] is not None:
+                pb = _FACTS[0].bodies.get(e[1]) or _FACTS[0].bodies.get('%s::promoted[%s]' % (body.name, m.group(1)))
+                names = [o['v'] for bi, st in pb.stmts() for o in st['rv'].get('ops', []) if o['k'] == 'const'] if pb is not None else []
+            for nm in names:
+                lit = str_literal(_FACTS[0], nm) if _FACTS[0] is not None else None
+                if lit is not None: lits.append(lit)
+        if len(lits) != 1: continue
+        for g in T.guards_from_call(body, c):
+            t, f = g.true_bb, g.false_bb
+            if c.item == 'ne': t, f = f, t
+            out.append((lits[0], c, t, f))
+    return out
+
+
+_FACTS = [None]          # set by check(): the facts of the tree being checked (for the named constants)
+
+
 def literal_table(body):
-    """{literal: (true_target, false_target, call)} of the `x == "LIT"` tests of a string match"""
+    """{literal: (true_target, false_target, call)} of the `x == "LIT"` tests of a string match (the literal written in place or named)"""
     tab = {}
-    for lit, c, t, f in T.str_eq_tests(body):
+    for lit, c, t, f in T.str_eq_tests(body) + named_str_tests(body):
         tab.setdefault(lit, (t, f, c))
     return tab
 
@@ -1098,7 +1136,7 @@ class KeywordCase(SxOracle):
         if item in ('eq', 'ne') and len(args) == 2 and self.objrow is not None and sum(1 for a in args if any(f == 'objective_name' and o.endswith('parser::Mps') for o, f in sx_fields(a))) == 1:
             return _cbool(self.objrow == (item == 'eq'))          # `row_name == self.mps.objective_name`, compared as RowName, String or &str
         if item in ('eq', 'ne') and len(args) == 2 and re.search(r'\bstr\b|String', name):
-            lits = [T._unq(sx_strip(a)[1]) for a in args if sx_strip(a)[0] == 'const' and '"' in sx_strip(a)[1]]
+            lits = [l_ for l_ in (str_literal(sx.F, sx_strip(a)[1]) for a in args if sx_strip(a)[0] == 'const') if l_ is not None]
             if len(lits) == 1: return _cbool((lits[0] in self.true) == (item == 'eq'))
         return None
 
@@ -1529,26 +1567,22 @@ def entry_rules(ctx):
 def parser_rules(ctx):
     line_filter_rules(ctx); entry_rules(ctx)
     R = 'C17.keywords'
-    b = ctx.method(R + '/sense/anchor', 'mps::parser::ObjSense', 'from_str', trait='FromStr')
-    if b is not None:
-        tab = check_literals(ctx, R + '/sense', b, {'MIN', 'MAX'}, 'InvalidObjSense')
+    # OBJSENSE values and section names: keyword -> variant, read off the value from_str returns for each keyword; an unknown keyword
+    # is the typed error on every path (arms giving Ok(..) / Err(..), or Some(..) / None followed by ok_or / ok_or_else, alike)
+    for what, ty, enum, want, err in (('sense', 'mps::parser::ObjSense', 'ObjSense::', {'MIN': 'Min', 'MAX': 'Max'}, 'InvalidObjSense'),
+                                      ('sections', 'mps::parser::Cursor', 'Cursor::', {'ROWS': 'Rows', 'COLUMNS': 'Columns', 'RHS': 'Rhs', 'RANGES': 'Ranges', 'BOUNDS': 'Bounds', 'ENDATA': 'End'}, 'InvalidHeader')):
+        b = ctx.method(R + '/%s/anchor' % what, ty, 'from_str', trait='FromStr')
+        if b is None: continue
+        got = keyword_table(ctx, R + '/' + what, b, set(want), err)
         rows = {}
-        for lit in ('MIN', 'MAX'):
-            if lit in tab:
-                reg = arm_region(b, tab, lit)
-                rows[lit] = sorted({st['rv']['adt'].split('::')[-1] for bi, st in b.stmts() if bi in reg and st['rv']['k'] == 'agg' and 'ObjSense::' in st['rv']['adt']})
-        ctx.check(rows == {'MIN': ['Min'], 'MAX': ['Max']}, R + '/sense/mapping', 'T-BRANCHFX', b.name, 'MIN/MAX map to %s' % rows, b.site())
-    b = ctx.method(R + '/sections/anchor', 'mps::parser::Cursor', 'from_str', trait='FromStr')
-    if b is not None:
-        tab = check_literals(ctx, R + '/sections', b, {'ROWS', 'COLUMNS', 'RHS', 'RANGES', 'BOUNDS', 'ENDATA'}, 'InvalidHeader')
-        want = {'ROWS': 'Rows', 'COLUMNS': 'Columns', 'RHS': 'Rhs', 'RANGES': 'Ranges', 'BOUNDS': 'Bounds', 'ENDATA': 'End'}
-        rows = {}
-        for lit in want:
-            if lit in tab:
-                reg = arm_region(b, tab, lit)
-                v = sorted({st['rv']['adt'].split('::')[-1] for bi, st in b.stmts() if bi in reg and st['rv']['k'] == 'agg' and 'Cursor::' in st['rv']['adt']})
-                rows[lit] = v[0] if len(v) == 1 else v
-        ctx.check(rows == want, R + '/sections/mapping', 'T-BRANCHFX', b.name, 'section keywords map to %s' % rows, b.site())
+        for lit in sorted(want):
+            if lit not in got: continue
+            res = keyword_effects(ctx, R + '/%s/mapping' % what, b, {lit}, None)
+            if res is None: rows = None; break
+            vs = sorted({x[1].split('::')[-1] for r in res for x in sx_walk(r['path'].value) if x[0] == 'agg' and enum in x[1]})
+            rows[lit] = vs[0] if len(vs) == 1 else vs
+        if rows is not None:
+            ctx.check(rows == want, R + '/%s/mapping' % what, 'T-BRANCHFX', b.name, '%s keywords map to %s' % (what, rows), b.site())
     # the dispatcher routes each section to its reader
     fl = [x for x in ctx.F.bodies.values() if x.kind == 'fn' and x.hdr.get('self') == MPS and x.hdr.get('item') == 'from_lines']
     if len(fl) != 1: ctx.lost(R + '/dispatch', 'Mps::from_lines')
@@ -1602,6 +1636,12 @@ def parser_rules(ctx):
     for fn in ('read_column_field', 'read_rhs_field', 'read_range_field', 'read_bound_field'):
         b = ctx.F.one(ST, fn)
         if b is None: continue
+        # the numbers of a record are read with the f64 parser -- the writer formats them as f64 (`inf`, `-inf`, `1e30`, `0.5` included);
+        # an integer or f32 parser rejects or changes text the library itself writes (seed C18-17).  Other targets of `parse` must be
+        # types of the crate (a keyword parsed into an enum)
+        odd = sorted({m.group(1) for bd in [b] + list(ctx.F.closures_of(b)) for c in bd.calls if c.item == 'parse'
+                      for m in [re.search(r'\bstr>?::parse::<(.+)>$', c.name)] if m and m.group(1) != 'f64' and parsed_type_from_str(ctx.F, c.name) is None})
+        ctx.check(not odd, 'C17.keywords/numbers/%s/as-f64' % fn, 'T-CONST', b.name, 'a field of the record is parsed as %s, the writer formats the numbers as f64' % odd, b.site())
         res = failure_is_error(ctx, 'C17.keywords/numbers/%s/error' % fn, 'T-ERRFLOW', b, lambda v: v[1] == 'parse' and 'f64' in v[2], 'Err')
         if res is None: continue
         seen, probs = res
@@ -1716,7 +1756,9 @@ class SignCase(SxOracle):
     Tables are identified by parameter position (the call site is checked for passing eq, ge, le in this order)."""
     TABS = {('param', 4): 'eq', ('param', 5): 'ge', ('param', 6): 'le', 'eq': 'eq', 'ge': 'ge', 'le': 'le'}
 
-    def __init__(self, typ, bval, empty): self.typ = typ; self.bval = bval; self.empty = empty
+    def __init__(self, typ, bval, empty, roles=None):
+        self.typ = typ; self.bval = bval; self.empty = empty
+        if roles is not None: self.TABS = dict(roles, eq='eq', ge='ge', le='le')       # parameter -> table as bound at the call sites
 
     def call(self, sx, node, st):
         _, item, name, args, bi, occ = node
@@ -1730,7 +1772,7 @@ class SignCase(SxOracle):
         return self.bval if v == ('param', 2) else None
 
 
-def sign_rules(ctx, R, ib):
+def sign_rules(ctx, R, ib, roles=None):
     """`a x (=|<=) b` becomes `a x - b (=|<=) 0`;  `a x >= b` becomes `-a x + b <= 0`  (a constant-only row included)"""
     want_eq = {'eq': {'EqualToZero'}, 'le': {'LessThanOrEqualToZero'}, 'ge': {'LessThanOrEqualToZero'}}
     eqno = {v['name']: float(v['discr']) for v in (ctx.F.adt('v1::Equality') or {}).get('variants', [])}
@@ -1739,7 +1781,7 @@ def sign_rules(ctx, R, ib):
         for empty in (False, True):
             flipped = 0; paths = 0; rebuilds = 0; pending = []
             for bval in (5.0, -2.5, 0.0):
-                orc = SignCase(typ, bval, empty)
+                orc = SignCase(typ, bval, empty, roles)
                 ps = sx_paths(ctx, R + '.sign/rows/table', 'T-BRANCHFX', ib, orc)
                 if ps is None: return
                 sx = Sx(ctx, ib, orc)
@@ -2175,22 +2217,33 @@ def convert_rules(ctx):
         ctx.check(okk, R + '.terms/unchanged', 'T-CARRY', tb.name, 'terms are not (id of the column, coefficient unchanged)', tb.site())
     # constraint normalisation
     ib = ctx.free_fn(R + '.sign/rows/anchor', 'mps::convert::convert_inequality')
-    if ib is not None: sign_rules(ctx, R, ib)
     cb_ = ctx.free_fn(R + '.rows/anchor', 'mps::convert::convert_constraints')
+    roles = None
     if cb_ is not None:
         bodies = [cb_] + list(ctx.F.closures_of(cb_))
         cis = [(bd, c) for bd in bodies for c in bd.calls if c.item == 'convert_inequality']
-        def tabs(bd, c): return [site_table(ctx, bodies, bd, a) for a in c.args[3:]]
-        ctx.check(bool(cis) and all(tabs(bd, c) == ['eq', 'ge', 'le'] for bd, c in cis), R + '.sign/rows/argument-order', 'T-CARRY', cb_.name, 'convert_inequality receives tables %s, expected (eq, ge, le)' % [tabs(bd, c) for bd, c in cis], cb_.site())
+        if ib is not None:
+            # which table each row-set parameter of convert_inequality stands for is read off the call sites (the same at every call, each
+            # one of eq / ge / le, no table twice); the sign table below is then decided for THESE bindings, so passing the sets in another
+            # order, or handing over the whole Mps and taking eq / ge / le apart inside the callee, is the same -- and swapped sets show
+            # as a wrong sign table
+            def binding(bd, c): return {k: site_table(ctx, bodies, bd, a) for k, a in enumerate(c.args, start=1) if k < len(ib.locals) and 'HashSet<' in ib.locals[k]}
+            bs = [binding(bd, c) for bd, c in cis]
+            ok = bool(bs) and all(b_ == bs[0] for b_ in bs) and all(t in ('eq', 'ge', 'le') for t in bs[0].values()) and len(set(bs[0].values())) == len(bs[0])
+            ctx.check(ok, R + '.sign/rows/argument-order', 'T-CARRY', cb_.name, 'the row-kind sets passed to convert_inequality are %s; every set parameter must be one of eq / ge / le, each once, the same at every call' % bs, cb_.site())
+            if ok: roles = {('param', k): t for k, t in bs[0].items()}
+    if ib is not None: sign_rules(ctx, R, ib, roles)
+    if cb_ is not None:
         ctx.check(bool(cis) and all(site_depends_on(ctx, bodies, bd, c.args[1], MPS, 'b') for bd, c in cis), R + '.sign/rows/rhs-from-b', 'T-CARRY', cb_.name, 'right-hand side does not come from b', cb_.site())
         recovery_rules(ctx, R + '.rows', 'C17.names/constraints', cb_, 'CONSTR_PREFIX', 'a', 'v1::Constraint', 'parser::RowName', 'constraint')
 
 
 def check(ctx):
+    _FACTS[0] = ctx.F
     parser_rules(ctx); convert_rules(ctx)
     # decided instances per family on the unchanged tree (instances are per clause, not per loop / call site, so that the
     # count does not depend on how the code is laid out)
     for fam, n in {'C17.bounds': 19, 'C17.columns': 3, 'C17.convert': 6, 'C17.convert.cover': 15, 'C17.convert.defaults': 5, 'C17.convert.kind': 2,
                    'C17.convert.rows': 5, 'C17.convert.sense': 1, 'C17.convert.sign': 6, 'C17.convert.terms': 1, 'C17.convert.vars': 5, 'C17.defaults': 1, 'C17.entry': 2,
-                   'C17.keywords': 35, 'C17.lines': 3, 'C17.names': 2, 'C17.ranges': 9, 'C17.rhs': 4, 'C17.rows': 4}.items():
+                   'C17.keywords': 39, 'C17.lines': 3, 'C17.names': 2, 'C17.ranges': 9, 'C17.rhs': 4, 'C17.rows': 4}.items():
         ctx.floor(fam, n)
